@@ -184,6 +184,19 @@ def check(case):
             want = torch.tensor([F[idx[b], idx[(b + d) % Bn]] for b in range(Bn)], dtype=torch.double)
             ok = ok or bool(torch.all((out - want).abs() <= 1e-9 * (1 + want.abs())))
         require(ok, "pairing", f"within a batch each sample must be paired with a cyclic neighbour (A={A})", got=out.tolist())
+    # lifecycle: ONE observable object, evaluated, then its public region attribute re-assigned, evaluated again (region after region)
+    roam = SWAP(regions[-1])
+    roam.apply(state, batch)
+    idx_r = case["batch"]
+    Bn_r = batch.shape[0]
+    for A in regions[:4]:
+        roam.A = list(A)
+        out = roam.apply(state, batch).double()
+        ok = False
+        for d in (+1, -1):
+            want = torch.tensor([pair_ref(idx_r[b], idx_r[(b + d) % Bn_r], A) for b in range(Bn_r)], dtype=torch.double)
+            ok = ok or bool(torch.all((out - want).abs() <= 1e-6 * want.abs() + 1e-9))
+        require(ok, "region-reassigned-after-evaluation", f"after obs.A was re-assigned to {A} on an observable that had already been evaluated, SWAP is not the value of the new region")
     if case.get("alt"):
         # history on the same state object and the same batch tensor: parameters A (above) -> B written in place -> A restored
         altc = dict(sc, am=case["alt"]["am"], ph=case["alt"]["ph"])
